@@ -24,6 +24,18 @@ CHECKS = {
             'measured noise 4e-13), plus symmetry/PSD/tiling/pre-load/rigid-body consequences',
             'trusts vlib/ref/panel.py + vlib/ref/clt.py; kernels are the pre-built extensions (no Cython available), '
             'Python orchestration is live; m,n <= 8', '3 C02'),
+    'C03': ('Hypothesis-generated panels/loads/states; differential oracle: Hessian of the pre-stress work with N given or '
+            'N = A eps + B kappa of the state at the same Gauss points; metamorphic: superposition of unit loads, tiling, '
+            'uniform-stress state == constant load, table-of-equal-laminates == uniform',
+            'generated-input search over models x sub-intervals x placement x load triples (tension, shear, mixed) and, '
+            'for the state path, Ritz states x Gauss orders 2..64 x uniform/per-point laminate tables; every matrix entry compared',
+            'trusts vlib/ref/panel.py; comparisons are scaled by a cancellation-free bound of the stress resultants', '3 C03'),
+    'C04': ('Hypothesis-generated panels; differential oracle: kinetic-energy Hessian; invariants: total mass of rigid '
+            'translations, positive definiteness; metamorphic: frequency invariance under a move of the reference surface',
+            'generated-input search over models x flags x sub-intervals x placement x offsets of both signs; every entry of '
+            'calc_kM compared with the kinetic-energy Hessian; the coupling sign is decided by a package-only metamorphic '
+            'relation; the kernel defect R1 is matched by a signature predicate and everything else stays armed',
+            'trusts vlib/ref/panel.py; sign convention taken from the laminate code (mid-plane at z=+offset)', '3 C04'),
     'C10': ('exhaustive enumeration of the finite table domains + Hypothesis-generated sub-intervals/maps/flags; oracle: '
             'exact rational Bardell polynomials; C sources parsed and evaluated in exact rational arithmetic',
             'the C library is compiled from the current tree and every one of the 6x900 full-interval entries x 256 flag '
